@@ -1411,11 +1411,16 @@ def print_token(sk, x):
 
 
 class _Printed(object):
-    """argument of str.format in text mode: an abstract float prints as its label whatever the format specification"""
-    def __init__(self, lab):
-        self.lab = lab
+    """argument of str.format in text mode: an abstract float prints as its label whatever the format specification -- except that an
+    exact symbolic value printed with fewer than 15 decimals reads back as another (rounded) value"""
+    def __init__(self, lab, tok=None, sk=None):
+        self.lab, self.tok, self.sk = lab, tok, sk
 
     def __format__(self, spec):
+        import re as _re
+        mt = _re.search(r'\.(\d+)[fFeE]$', spec or '')
+        if mt and int(mt.group(1)) < 15 and isinstance(self.tok, Sym) and self.sk is not None:
+            return print_token(self.sk, _round(self.sk, None, self.tok, int(mt.group(1))))
         return self.lab
 
     def __str__(self):
@@ -1424,7 +1429,7 @@ class _Printed(object):
 
 def fmt_arg(sk, x):
     if isinstance(x, Tok):
-        return _Printed(print_token(sk, x))
+        return _Printed(print_token(sk, x), x, sk)
     if isinstance(x, Fraction):
         return int(x) if x.denominator == 1 and False else float(x)
     if hasattr(x, '__next__'):
@@ -1478,6 +1483,12 @@ def _sum(sk, n, x, *start):
 
 
 def _round(sk, n, x, *a):
+    if isinstance(x, Sym):
+        # rounding to the full precision of a double (15 decimals and more) hands back the value; anything coarser is another number
+        nd = a[0] if a else 0
+        if isinstance(nd, int) and not isinstance(nd, bool) and nd >= 15:
+            return x
+        return Sym('round(%r, %r)' % (x.p if x.q is None else (x.p, x.q), nd))
     if isinstance(x, Tok):
         return x
     return round(x, *a)
